@@ -262,3 +262,16 @@ T("c01-twin-shape-tuple-attr", "C01", (R + "snake/env.py", "Snake.observation_sp
 B("c04-tetris-action-rows", "C04", "C04.R6", (P + "tetris/env.py", "Tetris.action_spec", "expr", "jnp.array([NUM_ROTATIONS, self.num_cols])", "jnp.array([NUM_ROTATIONS, self.num_rows])"))
 B("c04-connector-mask-spec", "C04", "C04.R6", (R + "connector/env.py", "Connector.observation_spec", "expr", "(self.num_agents, 5)", "(self.num_agents, 4)"))
 B("c04-cvrp-mask-capacity-strict", "C04", "C04.R3b", (R + "cvrp/env.py", "CVRP._state_to_observation", "expr", "state.capacity >= state.demands", "state.capacity > state.demands"))
+
+# ---------------------------------------------------------------- later additions
+B("c09-sliding-sparse-old-state", "C09", "C09.R4", (L + "sliding_tile_puzzle/reward.py", "SparseRewardFn.__call__", "expr", "next_state.puzzle", "state.puzzle"))
+B("c17-solved-absorbing", "C17", "C17.R3", (L + "rubiks_cube/env.py", "RubiksCube.step", "expr", "rotate_cube(cube=state.cube, flattened_action=flattened_action)", "jax.lax.select(is_solved(state.cube), state.cube, rotate_cube(cube=state.cube, flattened_action=flattened_action))"))
+B("c17-sliding-generator-swap", "C17", "C17.R5", (L + "sliding_tile_puzzle/generator.py", "RandomWalkGenerator.__call__", "insert_before", "state = State(", "puzzle = puzzle.at[0, 0].set(puzzle[0, 1]).at[0, 1].set(puzzle[0, 0])"))
+B("c18-class-cache", "C18", "C18.R5", (L + "sudoku/env.py", "Sudoku.__init__", "insert_first", "Sudoku._last_generator = generator"))
+B("c02-class-cache", "C02", "C02.R6", (L + "sudoku/env.py", "Sudoku.__init__", "insert_first", "Sudoku._last_generator = generator"))
+B("c05-minesweeper-reward-crossing", "C05", "C05.R5", (L + "minesweeper/reward.py", "DefaultRewardFn.__init__", "replace_stmt", "self.invalid_action_reward = invalid_action_reward", "self.invalid_action_reward = revealed_mine_reward"))
+B("c05-tetris-reward-unmasked", "C05", "C05.R4", (P + "tetris/env.py", "Tetris.step", "expr", "self.reward_list[nbr_full_lines] * is_valid", "self.reward_list[nbr_full_lines]"))
+B("c07-tetris-padded-cols", "C07", "C07.R2", (P + "tetris/env.py", "Tetris.__init__", "replace_stmt", "self.padded_num_cols = num_cols + 3", "self.padded_num_cols = num_rows + 3"))
+B("c15-gym-seed-truthiness", "C15", "C15.R1", (W, "JumanjiToGymWrapper.reset", "expr", "seed is not None", "seed"))
+B("c15-obs-float32", "C15", "C15.R3", (W, "jumanji_to_gym_obs", "expr", "np.asarray(observation)", "np.asarray(observation, dtype=np.float32)"))
+B("c01-maze-count-bound-area", "C01", "C01.R3", (R + "maze/env.py", "Maze.observation_spec", "expr", "specs.Array((), jnp.int32, 'step_count')", "specs.BoundedArray((), jnp.int32, 0, self.num_rows * self.num_cols, 'step_count')"))
